@@ -123,7 +123,7 @@ func gen(t *rapid.T) Case {
 
 	// timeouts leave several milliseconds beyond the transit bound: "sent in full before the deadline"
 	// must not hinge on the implementation's polling cadence
-	c.ConnTimeoutUS = transitUS + int64(rapid.IntRange(10, 40).Draw(t, "connTimeoutExtraMS"))*1000
+	c.ConnTimeoutUS = transitUS + int64(rapid.IntRange(40, 120).Draw(t, "connTimeoutExtraMS"))*1000
 
 	n := rapid.IntRange(min(2, maxN), maxN).Draw(t, "n")
 	if maxN == 40 {
@@ -132,7 +132,7 @@ func gen(t *rapid.T) Case {
 	for i := 0; i < n; i++ {
 		r := RPC{
 			Behaviour: rapid.SampledFrom([]string{"now", "now", "now", "late", "never"}).Draw(t, "behaviour"),
-			TimeoutUS: transitUS + int64(rapid.IntRange(10, 40).Draw(t, "timeoutExtraMS"))*1000,
+			TimeoutUS: transitUS + int64(rapid.IntRange(40, 120).Draw(t, "timeoutExtraMS"))*1000,
 			Marker:    fmt.Sprintf("m%d-%s", i, rapid.StringMatching(`[a-z]{3}`).Draw(t, "marker")),
 			Op:        rapid.SampledFrom([]string{"get", "get-config", "lock", "get", "get-config", "lock", "subscribe"}).Draw(t, "op"),
 			Quote:     rapid.IntRange(0, 3).Draw(t, "quote") == 0,
@@ -150,7 +150,9 @@ func gen(t *rapid.T) Case {
 		case "now":
 			if rapid.Bool().Draw(t, "delayed") {
 				// the reply is sent, in full, at least transitUS before the deadline
-				r.DelayUS = int64(rapid.IntRange(1, int(r.TimeoutUS-transitUS-7000)).Draw(t, "delayUS"))
+				// (... and in the first half of what the timeout leaves beyond the transit bound:
+				// "sent in full before the deadline" must not hinge on how often the library polls)
+				r.DelayUS = int64(rapid.IntRange(1, int(r.TimeoutUS-transitUS)/2).Draw(t, "delayUS"))
 			}
 		case "late":
 			r.DelayUS = int64(rapid.IntRange(1, 8000).Draw(t, "lateUS"))
@@ -194,7 +196,7 @@ func run(c Case) ev.Verdict {
 	}
 
 	srv := &sim.NCServer{
-		Hello:   sim.HelloSpec{Caps: caps, SessionID: "3", Layout: "pretty"}.Render(),
+		Hello:   sim.HelloSpec{Caps: append(append([]string{}, caps...), sim.StdCaps...), SessionID: "3", Layout: "pretty"}.Render(),
 		Version: c.Version,
 		Echo:    c.Echo,
 	}
@@ -382,6 +384,13 @@ func run(c Case) ev.Verdict {
 				for _, e := range pipe.Events() {
 					fmt.Printf("%s @%v len=%d %q\n", e.Kind, e.At, len(e.Data), e.Data)
 				}
+			}
+
+			if i-base >= len(srv.Requests) {
+				// the server never saw a request for this call: refused by the client itself (an
+				// operation checked against the server's capabilities, say); the rest of the
+				// history no longer lines up with the script
+				return ev.Verdict{OK: true, Infeasible: true, Classes: []string{"call-refused-locally"}, Note: err.Error()}
 			}
 
 			if spec.Behaviour == "now" && (spec.Sub == "" || spec.Sub == "ok-id") {
